@@ -114,7 +114,8 @@ func parseRequest(body []byte) (*ParseRequestResponse, error) {
 		}
 
 		for _, r := range multipleRequests {
-			if r.Query == "" {
+			// a `null` entry of the batch decodes to a nil request
+			if r == nil || r.Query == "" {
 				return nil, errors.New("missing query from request")
 			}
 		}
